@@ -26,6 +26,45 @@ use versatiles_core::types::{Blob, TileCoord3, TileStream};
 /// sequence shows up as a model disagreement.
 static ORDER_FREE: std::sync::atomic::AtomicBool = std::sync::atomic::AtomicBool::new(false);
 use std::sync::atomic::Ordering::SeqCst;
+/// set when a run had to be abandoned (its thread is detached and may still sit in `block_on`):
+/// the process then leaves through `process::exit` so that nothing can block the exit
+static ABANDONED: std::sync::atomic::AtomicBool = std::sync::atomic::AtomicBool::new(false);
+static NO_PROGRESS: std::sync::atomic::AtomicUsize = std::sync::atomic::AtomicUsize::new(0);
+
+enum Guard<T> {
+	Done(T),
+	Panicked(String),
+	/// neither finished nor panicked within the limit
+	NoProgress,
+}
+
+/// Runs `f` (a call into the code under test) on its own thread under catch_unwind and a watchdog.
+/// On expiry the thread is detached; the caller reports `no_progress` and continues.
+fn guarded<T: Send + 'static>(limit: Duration, f: impl FnOnce() -> T + Send + 'static) -> Guard<T> {
+	let (tx, rx) = std::sync::mpsc::channel();
+	std::thread::spawn(move || {
+		let _ = tx.send(catch(f));
+	});
+	let limit = if NO_PROGRESS.load(SeqCst) > 0 { limit.min(Duration::from_secs(4)) } else { limit };
+	match rx.recv_timeout(limit) {
+		Ok(Ok(v)) => Guard::Done(v),
+		Ok(Err(m)) => Guard::Panicked(m),
+		Err(_) => {
+			ABANDONED.store(true, SeqCst);
+			NO_PROGRESS.fetch_add(1, SeqCst);
+			Guard::NoProgress
+		}
+	}
+}
+/// for the free-running (ungated) cases: panic and expiry both as `Err`
+fn guarded_result<T: Send + 'static>(f: impl FnOnce() -> T + Send + 'static) -> Result<T, String> {
+	match guarded(Duration::from_secs(30), f) {
+		Guard::Done(v) => Ok(v),
+		Guard::Panicked(m) => Err(format!("panic: {m}")),
+		Guard::NoProgress => Err("no_progress: the stream neither delivered its items nor finished within the watchdog limit".into()),
+	}
+}
+
 static STALLS: std::sync::atomic::AtomicUsize = std::sync::atomic::AtomicUsize::new(0);
 fn wait_limit() -> Duration {
 	if STALLS.load(std::sync::atomic::Ordering::SeqCst) == 0 { Duration::from_secs(20) } else { Duration::from_secs(2) }
@@ -183,10 +222,12 @@ struct Outcome {
 	bad_choice: bool,
 	/// the operator / consumer under test panicked (message)
 	panicked: Option<String>,
+	/// the run neither finished nor made progress: it was abandoned by the watchdog
+	no_progress: bool,
 }
 
 /// Runs one schedule on the real operator. `items` = (coord id, arg).
-fn execute(rt: &tokio::runtime::Runtime, op: Op, window: usize, k: Option<usize>, items: &[(u64, u64)], strat: Strategy) -> Outcome {
+fn execute(rt: &Arc<tokio::runtime::Runtime>, op: Op, window: usize, k: Option<usize>, items: &[(u64, u64)], strat: Strategy) -> Outcome {
 	let len = items.len();
 	let gate = Arc::new(Gate {
 		m: Mutex::new(GS { started: vec![false; len], n_started: 0, released: vec![false; len], tap: vec![], abort: false }),
@@ -313,6 +354,13 @@ fn execute(rt: &tokio::runtime::Runtime, op: Op, window: usize, k: Option<usize>
 	let big: usize = if len <= 100 { 70_000 } else { 200 };
 	// every call into the code under test runs under catch_unwind: a panic is an outcome, not the end of the harness
 	let gate_p = gate.clone();
+	let (tx, rx) = std::sync::mpsc::channel();
+	{
+		let rt = rt.clone();
+		let gate = gate.clone();
+		let idx_of = idx_of.clone();
+		let items: Vec<(u64, u64)> = items.to_vec();
+		std::thread::spawn(move || {
 	let run = catch(|| rt.block_on(async {
 		let g1 = gate.clone();
 		let cb_idx = idx_of.clone();
@@ -355,18 +403,58 @@ fn execute(rt: &tokio::runtime::Runtime, op: Op, window: usize, k: Option<usize>
 			}
 		}
 	}));
+			let _ = tx.send(run);
+		});
+	}
+	// watchdog: the run must make progress (a callback starts, an item is released or delivered) or finish;
+	// the controller's own stall detection (20 s, then the gate is opened) comes first, so a run that is
+	// still silent after the limit below is not going to end at all
+	let snapshot = || {
+		let g = gate_p.m.lock().unwrap_or_else(|e| e.into_inner());
+		(g.n_started, g.tap.len(), g.released.iter().filter(|r| **r).count(), g.abort)
+	};
+	let mut last = snapshot();
+	let mut idle = 0u64;
+	let idle_limit = if NO_PROGRESS.load(SeqCst) > 0 { 4 } else { 30 };
+	let run = loop {
+		match rx.recv_timeout(Duration::from_secs(1)) {
+			Ok(r) => break Some(r),
+			Err(_) => {
+				let now = snapshot();
+				if now != last {
+					last = now;
+					idle = 0;
+				} else {
+					idle += 1;
+					if idle >= idle_limit {
+						break None;
+					}
+				}
+			}
+		}
+	};
+	let mut no_progress = false;
 	let (consumer, panicked) = match run {
-		Ok(c) => (c, None),
-		Err(m) => {
+		Some(Ok(c)) => (c, None),
+		Some(Err(m)) => {
 			// open the gate so that the callbacks and the controller come to an end
 			let g = gate_p.m.lock().unwrap_or_else(|e| e.into_inner());
 			gate_p.abort(g);
 			(vec![], Some(m))
 		}
+		None => {
+			// abandoned: the consumer thread stays behind (detached)
+			ABANDONED.store(true, SeqCst);
+			NO_PROGRESS.fetch_add(1, SeqCst);
+			no_progress = true;
+			let g = gate_p.m.lock().unwrap_or_else(|e| e.into_inner());
+			gate_p.abort(g);
+			(vec![], None)
+		}
 	};
 	let (choices, stalled, bad_choice) = ctl.join().unwrap();
-	let tap = gate.m.lock().unwrap_or_else(|e| e.into_inner()).tap.clone();
-	Outcome { choices, tap, consumer, stalled: if panicked.is_some() { None } else { stalled }, bad_choice, panicked }
+	let tap = gate_p.m.lock().unwrap_or_else(|e| e.into_inner()).tap.clone();
+	Outcome { choices, tap, consumer, stalled: if panicked.is_some() || no_progress { None } else { stalled }, bad_choice, panicked, no_progress }
 }
 
 fn show_seq(v: &[(u64, u64)]) -> String {
@@ -413,13 +501,13 @@ impl Affinity {
 
 struct Ctx<'a> {
 	out: &'a mut Out,
-	rt: &'a tokio::runtime::Runtime,
+	rt: &'a Arc<tokio::runtime::Runtime>,
 	aff: &'a Affinity,
 }
 
 fn run_case(cx: &mut Ctx, op: Op, want_window: usize, k: Option<usize>, items: &[(u64, u64)], strat: Strategy) {
 	let oracle_only = matches!(strat, Strategy::Burst(_));
-	if STALLS.load(std::sync::atomic::Ordering::SeqCst) >= 5 {
+	if STALLS.load(std::sync::atomic::Ordering::SeqCst) >= 5 || NO_PROGRESS.load(SeqCst) >= 4 {
 		return;
 	}
 	let window = cx.aff.set(want_window);
@@ -427,7 +515,9 @@ fn run_case(cx: &mut Ctx, op: Op, want_window: usize, k: Option<usize>, items: &
 	let its = if items.is_empty() { "-".to_string() } else { items.iter().map(|(c, a)| format!("{c}:{a}")).collect::<Vec<_>>().join(",") };
 	let kk = k.map_or("c".to_string(), |k| k.to_string());
 	let line = format!("C14 {} {} {} {} {}", op.name(), window, kk, its, show_list(&o.choices));
-	let impl_line = if o.panicked.is_some() {
+	let impl_line = if o.no_progress {
+		"no-progress".to_string()
+	} else if o.panicked.is_some() {
 		"panicked".to_string()
 	} else if o.bad_choice {
 		"bad-choice".to_string()
@@ -471,6 +561,11 @@ fn run_case(cx: &mut Ctx, op: Op, want_window: usize, k: Option<usize>, items: &
 	// unordered delivery) no longer describes the code: they show up as a differing impl line, not as
 	// an oracle failure. After a stall the gate is opened and the stream drains, so the laws below
 	// are still judged on the complete output.
+	if o.no_progress {
+		let msg = format!("the stream of {} items neither finished nor made progress (window {window}): {} callbacks started, {} results delivered", items.len(), o.choices.len(), o.tap.len());
+		cx.out.oracle(false, &format!("C14 no_progress: {msg}"), json!({"kind": "no_progress", "op": op.name(), "window": window}), detail(msg.clone()));
+		return;
+	}
 	if let Some(m) = &o.panicked {
 		// total callbacks, valid parameters: the stream must not panic (for_each_buffered accepts every buffer size)
 		let msg = format!("the stream / consumer panicked: {}", trunc(m, 200));
@@ -596,7 +691,7 @@ fn converter_cases(cx: &mut Ctx, rng: &mut Rng, thorough: bool, replay: Option<&
 	let comps = [Uncompressed, Gzip, Brotli];
 	// "memo": no corrupt tile, but one or two LARGE (slow) payloads among long runs of IDENTICAL small ones and
 	// alternating A,B pairs – results must not travel between coordinates (shared state between worker tasks)
-	let faults = ["none", "truncated", "garbage", "empty", "other-codec", "raw-in-compressed", "memo", "memo"];
+	let faults = ["none", "truncated", "garbage", "empty", "other-codec", "raw-in-compressed", "memo"];
 	let mut plan: Vec<(versatiles_core::types::TileCompression, versatiles_core::types::TileCompression, bool, String, usize, usize, u64)> = vec![];
 	if let Some(t) = replay {
 		plan.push((comp_parse(t[1]), comp_parse(t[2]), t[3] == "1", t[4].to_string(), t[5].parse().unwrap(), t[6].parse().unwrap(), t[7].parse().unwrap()));
@@ -646,14 +741,17 @@ fn converter_cases(cx: &mut Ctx, rng: &mut Rng, thorough: bool, replay: Option<&
 		let conv = TileConverter::new_tile_recompressor(&src, &dst, force).unwrap();
 		let active = !conv.is_empty();
 		let inp = inputs.clone();
-		let rt = cx.rt;
-		let res = catch(move || rt.block_on(async { conv.process_stream(TileStream::from_vec(inp)).collect().await }));
+		let rt = cx.rt.clone();
+		let res = guarded_result(move || rt.block_on(async { conv.process_stream(TileStream::from_vec(inp)).collect().await }));
 		let case = format!("C14conv {} {} {} {} {} {} {}", comp_name(&src), comp_name(&dst), force as u8, fault, n, j, seed);
 		cx.out.eval(&case, bad.is_some() && active && src != Uncompressed);
 		cx.out.count("converter_streams");
 		let sig = |kind: &str| json!({"kind": kind, "src": comp_name(&src), "dst": comp_name(&dst), "fault": fault});
 		let detail = |m: &str| json!({"case": case, "message": m});
 		match res {
+			Err(m) if m.starts_with("no_progress") => {
+				cx.out.oracle(false, &format!("C14 no_progress: converter stream: {m}"), sig("no_progress"), detail(&m));
+			}
 			Err(_) => {
 				cx.out.count("converter_stream_failed_loudly");
 				if bad.is_none() || !active {
@@ -721,9 +819,9 @@ fn converter_cases(cx: &mut Ctx, rng: &mut Rng, thorough: bool, replay: Option<&
 fn panic_case(cx: &mut Ctx, op: Op, len: usize, at: usize) {
 	let items: Vec<(u64, u64)> = (0..len as u64).map(|i| (if op == Op::Coord { i + 1 } else { 500 + i / 2 }, i + 1)).collect();
 	let bad = items[at].1;
-	let rt = cx.rt;
+	let rt = cx.rt.clone();
 	let its = items.clone();
-	let res = catch(move || {
+	let res = guarded_result(move || {
 		rt.block_on(async move {
 			let big = 100;
 			let stream = match op {
@@ -750,6 +848,9 @@ fn panic_case(cx: &mut Ctx, op: Op, len: usize, at: usize) {
 	cx.out.eval(&case, true);
 	cx.out.count("panic_cases");
 	match res {
+		Err(m) if m.starts_with("no_progress") => {
+			cx.out.oracle(false, &format!("C14 no_progress: {m}"), json!({"kind": "no_progress", "op": op.name()}), json!({"case": case, "message": m}));
+		}
 		Err(_) => {
 			cx.out.count("panic_reached_consumer");
 			cx.out.oracle(true, "", json!(null), json!(null));
@@ -765,7 +866,9 @@ fn panic_case(cx: &mut Ctx, op: Op, len: usize, at: usize) {
 /// for_each_async, map_coord, from_coord_vec_async, from_stream_iter, drain_and_count.
 fn seq_cases(cx: &mut Ctx, rng: &mut Rng, replay: Option<&[&str]>) {
 	let show_items = |v: &[(u64, u64)]| if v.is_empty() { "-".to_string() } else { v.iter().map(|(c, a)| format!("{c}:{a}")).collect::<Vec<_>>().join(",") };
-	let parse_items = |s: &str| -> Vec<(u64, u64)> { if s == "-" { vec![] } else { s.split(',').map(|x| { let (c, a) = x.split_once(':').unwrap(); (c.parse().unwrap(), a.parse().unwrap()) }).collect() } };
+	fn parse_items(s: &str) -> Vec<(u64, u64)> { if s == "-" { vec![] } else { s.split(',').map(|x| { let (c, a) = x.split_once(':').unwrap(); (c.parse().unwrap(), a.parse().unwrap()) }).collect() } }
+	fn to_stream(v: &[(u64, u64)]) -> TileStream<'static> { TileStream::from_vec(v.iter().map(|(c, a)| (coord_of(*c), blob_of(*a))).collect()) }
+	fn conv(v: Vec<(TileCoord3, Blob)>) -> Vec<(u64, u64)> { v.iter().map(|(c, b)| (id_of(c), val_of(b))).collect::<Vec<_>>() }
 	let mut plan: Vec<(String, String)> = vec![];
 	if let Some(t) = replay {
 		if t.len() == 4 { plan.push((format!("{} {}", t[1], t[2]), t[3].to_string())); } else { plan.push((t[1].to_string(), t[2].to_string())); }
@@ -789,11 +892,10 @@ fn seq_cases(cx: &mut Ctx, rng: &mut Rng, replay: Option<&[&str]>) {
 			}
 		}
 	}
-	let to_stream = |v: &[(u64, u64)]| TileStream::from_vec(v.iter().map(|(c, a)| (coord_of(*c), blob_of(*a))).collect());
-	let conv = |v: Vec<(TileCoord3, Blob)>| v.iter().map(|(c, b)| (id_of(c), val_of(b))).collect::<Vec<_>>();
 	for (comb, arg) in plan {
-		let rt = cx.rt;
-		let res: Result<String, String> = catch(|| match comb.as_str() {
+		let rt = cx.rt.clone();
+		let (comb_c, arg_c) = (comb.clone(), arg.clone());
+		let res: Result<String, String> = guarded_result(move || { let (comb, arg) = (comb_c, arg_c); match comb.as_str() {
 			c if c.starts_with("buffered ") => {
 				let k: usize = c[9..].parse().unwrap();
 				let items = parse_items(&arg);
@@ -841,16 +943,107 @@ fn seq_cases(cx: &mut Ctx, rng: &mut Rng, replay: Option<&[&str]>) {
 					}
 				})
 			}
-		});
+		}});
 		let case = format!("C14s {comb} {arg}");
-		let line = match &res { Ok(r) => r.clone(), Err(_) => "panicked".to_string() };
+		let line = match &res { Ok(r) => r.clone(), Err(m) if m.starts_with("no_progress") => "no-progress".to_string(), Err(_) => "panicked".to_string() };
 		cx.out.case(&case, &line, arg != "-");
 		cx.out.count(&format!("seq_{}", comb.split(' ').next().unwrap()));
 		match res {
 			Ok(_) => cx.out.oracle(true, "", json!(null), json!(null)),
-			Err(m) => cx.out.oracle(false, &format!("C14 panic: sequential combinator `{comb}` panicked: {}", trunc(&m, 160)), json!({"kind": "panic", "combinator": comb.split(' ').next().unwrap(), "k_max": comb.ends_with(&usize::MAX.to_string())}), json!({"case": case, "message": m})),
+			Err(m) => cx.out.oracle(false, &format!("C14 {}: sequential combinator `{comb}`: {}", if m.starts_with("no_progress") { "no_progress" } else { "panic" }, trunc(&m, 160)), json!({"kind": if m.starts_with("no_progress") { "no_progress" } else { "panic" }, "combinator": comb.split(' ').next().unwrap(), "k_max": comb.ends_with(&usize::MAX.to_string())}), json!({"case": case, "message": m})),
 		}
 	}
+}
+
+/// The property's progress clause as a direct oracle, free-running callbacks: at concurrency limits 1, 2
+/// and the full window every stream of n items terminates after delivering its n (retained) items –
+/// also behind a source that is Pending before the first item / between items / while no task is in
+/// flight, and for parallel stages chained behind each other.
+/// case: `C14progress <kind> <op> <window> <n>`
+fn progress_cases(cx: &mut Ctx, rng: &mut Rng, full: usize) {
+	for window in [1usize, 2, full] {
+		let w = cx.aff.set(window);
+		for op in [Op::Map, Op::Fmap, Op::Coord] {
+			for n in [1usize, 5, 60] {
+				for kind in ["plain", "pending-source", "chained"] {
+					if kind == "pending-source" && op == Op::Coord {
+						continue; // from_coord_iter_parallel takes an iterator, not a stream
+					}
+					if NO_PROGRESS.load(SeqCst) >= 8 {
+						continue; // enough abandoned runs: keep the run time bounded
+					}
+					let items = gen_items(rng, op, n);
+					let its = items.clone();
+					let rt = cx.rt.clone();
+					let delivered = Arc::new((Mutex::new(0usize), Condvar::new()));
+					let del2 = delivered.clone();
+					let res = guarded_result(move || {
+						rt.block_on(async move {
+							let big = 100;
+							let input: Vec<(TileCoord3, Blob)> = its.iter().map(|(c, a)| (coord_of(*c), blob_of(*a))).collect();
+							// the source: a plain vector, or a channel fed in three batches – the next batch is only sent
+							// when everything retained of the previous one has been delivered (source Pending, no task in flight)
+							let source: TileStream = if kind == "pending-source" {
+								let (tx, rx) = futures::channel::mpsc::unbounded::<(TileCoord3, Blob)>();
+								let keeps: Vec<bool> = its.iter().map(|(_, a)| op.f(*a).is_some()).collect();
+								let del3 = del2.clone();
+								std::thread::spawn(move || {
+									let n = input.len();
+									let cuts = [0, n / 3, n / 3, 2 * n / 3, n];
+									let mut want = 0usize;
+									for wdw in cuts.windows(2) {
+										// before the first item, and between the batches: wait until the stream has drained
+										let (m, cv) = &*del3;
+										let g = m.lock().unwrap();
+										let _ = cv.wait_timeout_while(g, Duration::from_secs(10), |d| *d < want).unwrap();
+										for i in wdw[0]..wdw[1] {
+											if keeps[i] { want += 1; }
+											if tx.unbounded_send(input[i].clone()).is_err() { return; }
+										}
+									}
+								});
+								TileStream::from_stream(rx.boxed())
+							} else {
+								TileStream::from_vec(input)
+							};
+							let stage1 = match op {
+								Op::Map => source.map_blob_parallel(move |b| res_blob(Op::Map.f(val_of(&b)).unwrap(), big)),
+								Op::Fmap => source.filter_map_blob_parallel(move |b| Op::Fmap.f(val_of(&b)).map(|r| res_blob(r, big))),
+								Op::Coord => TileStream::from_coord_iter_parallel(its.iter().map(|(c, _)| coord_of(*c)).collect::<Vec<_>>().into_iter(), move |c| Op::Coord.f(id_of(&c)).map(|r| res_blob(r, big))),
+							};
+							// chained: two further parallel stages that keep the blob
+							let stage = if kind == "chained" {
+								stage1.map_blob_parallel(|b| b).filter_map_blob_parallel(Some).map_blob_parallel(|b| b)
+							} else {
+								stage1
+							};
+							let del4 = del2.clone();
+							let tapped = TileStream::from_stream(stage.stream.inspect(move |_| { let (m, cv) = &*del4; *m.lock().unwrap() += 1; cv.notify_all(); }).boxed());
+							tapped.collect().await.iter().map(|(c, b)| (id_of(c), res_val(b))).collect::<Vec<_>>()
+						})
+					});
+					let case = format!("C14progress {kind} {} {w} {n}", op.name());
+					cx.out.eval(&case, true);
+					cx.out.count(&format!("progress_{kind}"));
+					let mut want: Vec<(u64, u64)> = items.iter().filter_map(|(c, a)| op.f(*a).map(|r| (*c, r))).collect();
+					want.sort();
+					let verdict: Option<(&str, String)> = match res {
+						Err(m) if m.starts_with("no_progress") => Some(("no_progress", m)),
+						Err(m) => Some(("panic", m)),
+						Ok(mut got) => {
+							got.sort();
+							if got == want { None } else { Some(("progress", format!("the stream ended after delivering {} of {} items", got.len(), want.len()))) }
+						}
+					};
+					match verdict {
+						None => cx.out.oracle(true, "", json!(null), json!(null)),
+						Some((k, m)) => cx.out.oracle(false, &format!("C14 {k}: {} stream of {n} items at concurrency limit {w} ({kind}): {m}", op.name()), json!({"kind": k, "op": op.name(), "window": w, "source": kind}), json!({"case": case, "message": m})),
+					}
+				}
+			}
+		}
+	}
+	cx.aff.set(usize::MAX);
 }
 
 /// A stream consumed partially and then dropped, and a stream mapped twice (oracle only, free-running
@@ -860,8 +1053,8 @@ fn reuse_cases(cx: &mut Ctx, rng: &mut Rng) {
 		for (len, take) in [(5usize, 0usize), (5, 2), (40, 1), (40, 17), (400, 100), (400, 399)] {
 			let items = gen_items(rng, op, len);
 			let its = items.clone();
-			let rt = cx.rt;
-			let res = catch(move || rt.block_on(async move {
+			let rt = cx.rt.clone();
+			let res = guarded_result(move || rt.block_on(async move {
 				let big = 100;
 				let mut stream = match op {
 					Op::Map => TileStream::from_vec(its.iter().map(|(c, a)| (coord_of(*c), blob_of(*a))).collect()).map_blob_parallel(move |b| res_blob(Op::Map.f(val_of(&b)).unwrap(), big)),
@@ -880,7 +1073,7 @@ fn reuse_cases(cx: &mut Ctx, rng: &mut Rng) {
 			cx.out.count("partial_then_dropped");
 			let want: Vec<(u64, u64)> = items.iter().filter_map(|(c, a)| op.f(*a).map(|r| (*c, r))).collect();
 			let verdict = match res {
-				Err(m) => Some(format!("panic: {m}")),
+				Err(m) => Some(m),
 				Ok(got) => {
 					let mut rest = want.clone();
 					let mut bad = None;
@@ -901,8 +1094,8 @@ fn reuse_cases(cx: &mut Ctx, rng: &mut Rng) {
 	for len in [0usize, 1, 16, 17, 300, 3000] {
 		let items: Vec<(u64, u64)> = (0..len as u64).map(|i| (rng.below(len as u64 / 2 + 1), 1 + i)).collect();
 		let its = items.clone();
-		let rt = cx.rt;
-		let res = catch(move || rt.block_on(async move {
+		let rt = cx.rt.clone();
+		let res = guarded_result(move || rt.block_on(async move {
 			TileStream::from_vec(its.iter().map(|(c, a)| (coord_of(*c), blob_of(*a))).collect())
 				.map_blob_parallel(|b| blob_of(val_of(&b) + 1))
 				.filter_map_blob_parallel(|b| { let v = val_of(&b); if v % 3 == 0 { None } else { Some(blob_of(2 * v)) } })
@@ -918,7 +1111,7 @@ fn reuse_cases(cx: &mut Ctx, rng: &mut Rng) {
 		let mut want: Vec<(u64, u64)> = items.iter().filter_map(|(c, a)| if (a + 1) % 3 == 0 { None } else { Some((*c, 2 * (a + 1))) }).collect();
 		want.sort();
 		let verdict = match res {
-			Err(m) => Some(format!("panic: {m}")),
+			Err(m) => Some(m),
 			Ok(mut got) => { got.sort(); if got == want { None } else { Some(format!("{} outputs, {} demanded by the composed callback", got.len(), want.len())) } }
 		};
 		match verdict {
@@ -949,16 +1142,21 @@ fn all_digit_vectors(len: usize, window: usize) -> Vec<Vec<usize>> {
 pub fn run(args: &Args) {
 	quiet_panics();
 	let mut out = Out::new(&args.out);
-	out.rule = "real TileStream::{map_blob_parallel, filter_map_blob_parallel, from_coord_iter_parallel} (+ collect / for_each_buffered k) on a 24-worker tokio runtime with gate-controlled callbacks: the controller releases one started item at a time and the released result must pass a tap before the next release; window = num_cpus::get() varied through thread CPU affinity; ALL completion orders (all digit vectors d[i] < min(window, len-i)) for len ≤ 6 (thorough ≤ 7) at the full window and for small windows, plus reverse/rotate/interleave/seeded-random orders for streams of 10^2..10^4 items, straggler schedules (first / middle / last item held back), stream lengths window-1..window+2 at concurrency limits 1, 2 and the full window, bursts (several releases at once, oracle only), chunk sizes len-1 / len / len+1, callbacks that panic on the first / middle / last item (must fail loudly), streams dropped after partial consumption, a stream mapped twice, the sequential combinators (stream C14s), and TileConverter::new_tile_recompressor(src,dst,force).process_stream for all 18 configurations over streams with one truncated/garbage/empty/other-codec/uncompressed tile among valid ones (loud failure or exactly one output per input) and over streams of 3000-5000 tiles mixing large slow payloads with runs of identical small ones and alternating pairs (every coordinate must decode to its own input); non-trivial = the completion order differs from the submission order; distinct by case text".into();
+	out.rule = "real TileStream::{map_blob_parallel, filter_map_blob_parallel, from_coord_iter_parallel} (+ collect / for_each_buffered k) on a 24-worker tokio runtime with gate-controlled callbacks: the controller releases one started item at a time and the released result must pass a tap before the next release; window = num_cpus::get() varied through thread CPU affinity; ALL completion orders (all digit vectors d[i] < min(window, len-i)) for len ≤ 6 (thorough ≤ 7) at the full window and for small windows, plus reverse/rotate/interleave/seeded-random orders for streams of 10^2..10^4 items, straggler schedules (first / middle / last item held back), stream lengths window-1..window+2 at concurrency limits 1, 2 and the full window, bursts (several releases at once, oracle only), chunk sizes len-1 / len / len+1, callbacks that panic on the first / middle / last item (must fail loudly), the progress clause at concurrency limits 1 / 2 / full (plain, behind a source that stays Pending until the stream has drained, and with chained parallel stages), every run under a watchdog (no_progress), streams dropped after partial consumption, a stream mapped twice, the sequential combinators (stream C14s), and TileConverter::new_tile_recompressor(src,dst,force).process_stream for all 18 configurations over streams with one truncated/garbage/empty/other-codec/uncompressed tile among valid ones (loud failure or exactly one output per input) and over streams of 3000-5000 tiles mixing large slow payloads with runs of identical small ones and alternating pairs (every coordinate must decode to its own input); non-trivial = the completion order differs from the submission order; distinct by case text".into();
 	let aff = Affinity::new();
 	// worker threads are created now, with the unrestricted affinity
-	let rt = tokio::runtime::Builder::new_multi_thread().worker_threads(24).enable_all().build().unwrap();
+	let rt = Arc::new(tokio::runtime::Builder::new_multi_thread().worker_threads(24).enable_all().build().unwrap());
 	let full = aff.set(16); // at most 16 tasks in flight (24 workers)
 	let mut cx = Ctx { out: &mut out, rt: &rt, aff: &aff };
 
 	if let Some(p) = &args.replay {
 		for line in std::fs::read_to_string(p).unwrap().lines() {
 			let t: Vec<&str> = line.split(' ').collect();
+			if t[0] == "C14progress" {
+				// cheap: re-run the whole progress family (the case line names the failing member)
+				progress_cases(&mut cx, &mut Rng::new(args.seed), full);
+				continue;
+			}
 			if (t.len() == 3 || t.len() == 4) && t[0] == "C14s" {
 				seq_cases(&mut cx, &mut Rng::new(0), Some(&t));
 				continue;
@@ -983,6 +1181,7 @@ pub fn run(args: &Args) {
 		}
 		aff.set(usize::MAX);
 		out.finish();
+		if ABANDONED.load(SeqCst) { std::process::exit(0); }
 		return;
 	}
 
@@ -1063,6 +1262,7 @@ pub fn run(args: &Args) {
 		let items = gen_items(&mut rng, op, 2000);
 		run_case(&mut cx, op, full, None, &items, Strategy::Burst(full));
 	}
+	progress_cases(&mut cx, &mut rng, full);
 	seq_cases(&mut cx, &mut rng, None);
 	reuse_cases(&mut cx, &mut rng);
 	converter_cases(&mut cx, &mut rng, args.thorough(), None);
@@ -1086,6 +1286,12 @@ pub fn run(args: &Args) {
 	}
 	aff.set(usize::MAX);
 	out.exhaustive = true;
+	if NO_PROGRESS.load(SeqCst) > 0 {
+		out.notes.push(format!("{} run(s) were abandoned by the watchdog (no progress)", NO_PROGRESS.load(SeqCst)));
+	}
 	out.notes.push(format!("full window on this machine: {full}; exhaustive part: all completion orders for 0..={max_len} items at window {full} and all valid orders at windows 1,2,3 for up to 7/8 items"));
 	out.finish();
+	if ABANDONED.load(SeqCst) {
+		std::process::exit(0);
+	}
 }
